@@ -251,7 +251,8 @@ def real_leaf(g, env):
     arrs = env.arrays('real')
     if arrs:
         opts += ['elem'] * 2
-    opts.append('fromint')
+    if g.p.get('casts', True):     # profile key 'casts': False switches real(<int>, 8) leaves off (default on)
+        opts.append('fromint')
     c = g.pick(opts)
     if c == 'lit':
         return ['r', g.pick(DYADIC if g.p.get('real_class') == 'dyadic' else GENERAL + DYADIC)]
